@@ -6,7 +6,7 @@
     mem_kv.go by the correspondence run of every check. *)
 From Coq Require Import List NArith Bool String.
 From Verif Require Import Kv.KeyOrd Kv.AList Kv.Spec Kv.Mem Kv.Sql Kv.Refine Kv.Facts Kv.KvGen
-  Gen.KvSql.
+  Kv.KvCorr Gen.KvSql.
 Import ListNotations.
 Local Open Scope N_scope.
 
@@ -171,12 +171,106 @@ Theorem C05_unordered_any_key : forall hk k,
 Proof. exact (unordered_any_key gen_max_key_len). Qed.
 Print Assumptions C05_unordered_any_key.
 
+(** The two panic sites of the memory walk (slice bounds in partialKeys, nil
+    entry in walkKeys) are unreachable whenever offset + limit does not wrap
+    around uint64 - in particular on the whole range of the statement, offsets
+    and limits up to 2^63 - 1 ([bop_okb]) ... *)
 Theorem C05_mem_never_panics : forall t o,
-  nodupk t -> bop_okb o = true ->
+  nodupk t -> bop_nowrapb o = true ->
   (forall k f c v, o = BMutate k f -> lookup k t = Some (c, v) -> f v <> MFail EPanic) ->
   snd (mem_step t o) <> RErr EPanic.
-Proof. exact mem_never_panics. Qed.
+Proof. exact mem_never_panics_nowrap. Qed.
 Print Assumptions C05_mem_never_panics.
+
+Theorem C05_statement_range_no_wrap : forall o, bop_okb o = true -> bop_nowrapb o = true.
+Proof. exact bop_ok_nowrap. Qed.
+Print Assumptions C05_statement_range_no_wrap.
+
+(** ... and for uint64 values outside it the code does panic, exactly when
+    the wrapped end index falls below the start index. *)
+Theorem C05_mem_partial_panics_exactly : forall t off n desc f,
+  off < two64 -> n < two64 -> nodupk t ->
+  (snd (mem_step t (BWalkPartial off n desc f)) = RErr EPanic <->
+   two64 <= off + n /\ N.min (off + n - two64) (lenN t) < N.min off (lenN t)).
+Proof. exact mem_partial_panics_exactly. Qed.
+Print Assumptions C05_mem_partial_panics_exactly.
+
+Theorem C05_partial_keys_uint64 : forall off n ks,
+  off < two64 -> n < two64 ->
+  partial_keys off n ks =
+  if off + n <? two64 then Some (window off n ks)
+  else if N.min (off + n - two64) (lenN ks) <? N.min off (lenN ks) then None else Some [].
+Proof.
+  exact (fun off n ks Ho Hn =>
+    match N.ltb_spec (off + n) two64 as r in BoolSpec _ _ b
+      return partial_keys off n ks =
+             if b then Some (window off n ks)
+             else if N.min (off + n - two64) (lenN ks) <? N.min off (lenN ks) then None else Some []
+    with
+    | BoolSpecT _ H => partial_keys_nowrap off n ks H
+    | BoolSpecF _ H => partial_keys_wrap off n ks Ho Hn H
+    end).
+Qed.
+Print Assumptions C05_partial_keys_uint64.
+
+(** ** Keys are limited in bytes; classes and values are not limited at all *)
+
+Theorem C05_ordered_key_accepted_iff : forall hk k,
+  map_key gen_max_key_len true hk k = Some k <-> lenN k <= gen_max_key_len.
+Proof. exact (ordered_key_accepted_iff gen_max_key_len). Qed.
+Print Assumptions C05_ordered_key_accepted_iff.
+
+Theorem C05_key_limit_counts_bytes : forall hk (rune : bytes) (m : nat),
+  map_key gen_max_key_len true hk (List.concat (repeat rune m))
+  = if N.of_nat m * lenN rune <=? gen_max_key_len then Some (List.concat (repeat rune m)) else None.
+Proof. exact (repeated_rune_key gen_max_key_len). Qed.
+Print Assumptions C05_key_limit_counts_bytes.
+
+Theorem C05_add_is_addclass_empty :
+  forall maxlen ordered hk jv (S : Type) (step : S -> bop -> S * result) s k v,
+  kv_step maxlen ordered hk jv step s (UAdd k v) = kv_step maxlen ordered hk jv step s (UAddClass k [] v).
+Proof. exact add_is_addclass_empty. Qed.
+Print Assumptions C05_add_is_addclass_empty.
+
+Theorem C05_class_stored_verbatim : forall s k c v,
+  lookup k s = None -> lookup k (fst (spec_step s (BAdd k c v))) = Some (c, v).
+Proof. exact class_stored_verbatim. Qed.
+Print Assumptions C05_class_stored_verbatim.
+
+(** ** Values that are not JSON *)
+
+Theorem C05_get_undecodable : forall maxlen ordered hk jv s k mk c v,
+  map_key maxlen ordered hk k = Some mk -> @lookup entry mk s = Some (c, v) -> jv v = false ->
+  kv_step maxlen ordered hk jv spec_step s (UGet k) = (s, RErr EDecode) /\
+  kv_step maxlen ordered hk jv spec_step s (UGetBytes k) = (s, RBytes v).
+Proof. exact kv_get_undecodable. Qed.
+Print Assumptions C05_get_undecodable.
+
+Theorem C05_mutate_undecodable_noop : forall maxlen ordered hk jv s k mk c v f,
+  map_key maxlen ordered hk k = Some mk -> @lookup entry mk s = Some (c, v) ->
+  jv v = false ->
+  kv_step maxlen ordered hk jv spec_step s (UMutate k f) = (s, RErr EDecode).
+Proof. exact kv_undecodable_mutate_noop. Qed.
+Print Assumptions C05_mutate_undecodable_noop.
+
+Theorem C05_setbytes_any_value : forall maxlen ordered hk jv s k mk c v0 v,
+  map_key maxlen ordered hk k = Some mk -> @lookup entry mk s = Some (c, v0) ->
+  snd (kv_step maxlen ordered hk jv spec_step s (USetBytes k v)) = RUnit /\
+  lookup mk (fst (kv_step maxlen ordered hk jv spec_step s (USetBytes k v))) = Some (c, v).
+Proof. exact kv_setbytes_any_value. Qed.
+Print Assumptions C05_setbytes_any_value.
+
+Theorem C05_walk_stops_at_undecodable : forall jv (a b : table) k c v,
+  Forall (fun p => jv (snd (snd p)) = true) a -> jv v = false ->
+  visit (do_walk jv WAll) (a ++ (k, (c, v)) :: b) = (map snd a, Some EDecode).
+Proof. exact visit_stops_at_undecodable. Qed.
+Print Assumptions C05_walk_stops_at_undecodable.
+
+Theorem C05_walk_all_decodable : forall jv (a : table),
+  Forall (fun p => jv (snd (snd p)) = true) a ->
+  visit (do_walk jv WAll) a = (map snd a, None).
+Proof. exact visit_all_decodable. Qed.
+Print Assumptions C05_walk_all_decodable.
 
 (** ** The source is the deployed one *)
 Theorem C05_source_frozen :
@@ -221,6 +315,40 @@ Example C05_legacy_replace_refuted :
   forallb bop_okb ops = true /\
   snd (run mem_step_legacy [] ops) <> snd (run spec_step [] ops).
 Proof. split; [reflexivity|vm_compute; discriminate]. Qed.
+
+(** 85 three-byte runes are 255 bytes (accepted), 86 are 258 bytes and 86
+    runes (refused): the limit is not a count of characters *)
+Example C05_nonvacuous_rune_keys :
+  let zhong := [228; 184; 173] in
+  map_key gen_max_key_len true (fun k => k) (List.concat (repeat zhong 85))
+  = Some (List.concat (repeat zhong 85)) /\
+  map_key gen_max_key_len true (fun k => k) (List.concat (repeat zhong 86)) = None.
+Proof. vm_compute. split; reflexivity. Qed.
+
+(** an undecodable value in the middle of a walk *)
+Example C05_nonvacuous_undecodable :
+  let ops := [UAdd [97] [49]; UAdd [98] [50]; UAdd [99] [51]; USetBytes [98] [123];
+              UGet [98]; UGetBytes [98]; UWalk WAll; UWalkPartial 0 9 true WAll;
+              UMutate [98] (fun _ => MSet [53]); UCount] in
+  snd (run (kv_step gen_max_key_len true (fun k => k) Kv.KvCorr.json_ok spec_step) [] ops)
+  = [RUnit; RUnit; RUnit; RUnit; RErr EDecode; RBytes [123]; RWalk [([], [49])] (Some EDecode);
+     RWalk [([], [51])] (Some EDecode); RErr EDecode; RCount 3].
+Proof. vm_compute. reflexivity. Qed.
+
+(** window edges: at the top of the statement's range nothing wraps (and
+    nothing is visited); [Offset: 1, N: MaxUint64] wraps and panics on the
+    memory backend, and is refused by sqlite ("datatype mismatch") *)
+Example C05_window_edges :
+  let t := [([97], ([], [49])); ([98], ([], [50])); ([99], ([], [51]))] in
+  let top := two63 - 1 in
+  snd (mem_step t (BWalkPartial top top false always_ok)) = RWalk [] None /\
+  snd (mem_step t (BWalkPartial 2 top true always_ok)) = RWalk [([], [49])] None /\
+  snd (mem_step t (BWalkPartial 1 (two64 - 1) false always_ok)) = RErr EPanic /\
+  snd (mem_step t (BWalkPartial 0 (two64 - 1) false always_ok))
+  = RWalk [([], [49]); ([], [50]); ([], [51])] None /\
+  snd (sql_step gen_sqlite_methods t (BWalkPartial 1 (two64 - 1) false always_ok)) = RErr EOther /\
+  snd (sql_step gen_sqlite_methods t (BWalkPartial two63 0 false always_ok)) = RWalk [] None.
+Proof. vm_compute. repeat split. Qed.
 
 (** the key-length limit is met with equality at 255 and exceeded at 256 *)
 Example C05_nonvacuous_keys :
